@@ -83,8 +83,10 @@ def flags_ok(exp, st, sem):
         if ok:
             r4 = ms.sym("R4")
             x, y = ms.unify(b, r4)
-            ok = all(x.tables[k] == y.tables[k] for k in range(3)) and ms.is_const(ms.Bits(x.vars, [x.tables[3]] * 8)) == (0xFF if exp[1] else 0)
-        return ok, "flags %r, expected C/Z/N unchanged and IE=%d" % (f, exp[1])
+            # C/Z/N keep their value; IE and the four upper bits of the flag register become 1 (EI: FR | 0xF8) resp. 0 (DI: FR & 0x07)
+            ok = all(x.tables[k] == y.tables[k] for k in range(3)) and \
+                all(ms.is_const(ms.Bits(x.vars, [x.tables[k]] * 8)) == (0xFF if exp[1] else 0) for k in range(3, 8))
+        return ok, "flags %r, expected C/Z/N unchanged, IE and the upper four bits = %d" % (f, exp[1])
     if exp[0] in ("czn", "zn"):
         res = exp[1]
         recs = []
